@@ -63,8 +63,25 @@ Definition cache_ok (off ep : N) (fl : list N) (hnd : chandler) (race : list (N 
   | RErr _ => false
   end.
 
+(* server-side subscribe in cache mode: the push carries no "recovered" report;
+   what the property says about deliveries still applies *)
+Definition srv_cache_ok (fl : list N) (hnd : chandler) (hnd_out : list out) (full : out)
+           (delivered : list item) : bool :=
+  match full with
+  | OHist items _ _ =>
+      match delivered with
+      | [] => true
+      | [p] => match newest_visible fl (items ++ stored_items (hnd_pubs hnd) hnd_out) with
+               | Some nv => item_eqb p nv | None => false end
+      | _ => false
+      end
+  | _ => false
+  end.
+
 Definition step_ok (s : rstep) : bool :=
   match s with
+  | TSrvCache ch off ep uf fl hnd hnd_out full full2 push delivered =>
+      srv_cache_ok fl hnd hnd_out full delivered
   | TCache ch off ep uf fl hnd race race_out hnd_out full full2 res =>
       cache_ok off ep fl hnd race race_out hnd_out full full2 res
   | _ => true
